@@ -236,7 +236,7 @@ ASMJIT_FAVOR_SIZE Error FuncArgsContext::init_work_data(const FuncFrame& frame, 
 
   _var_count = var_id;
 
-  // Detect register swaps.
+  // Detect register swaps and cycles of three or more registers (A->B->C->A), which need a scratch register too.
   for (var_id = 0; var_id < _var_count; var_id++) {
     Var& var = _vars[var_id];
     if (var.cur.is_reg() && var.out.is_reg()) {
@@ -248,12 +248,19 @@ ASMJIT_FAVOR_SIZE Error FuncArgsContext::init_work_data(const FuncFrame& frame, 
         continue;
       }
 
+      // Follow the chain of variables that occupy the destination until it either ends or returns to `src_id`.
       WorkData& wd = _work_data[group];
-      if (wd.is_assigned(dst_id)) {
+      for (uint32_t i = 0; i < _var_count && wd.is_assigned(dst_id); i++) {
         Var& other = _vars[wd._phys_to_var_id[dst_id]];
-        if (RegUtils::group_of(other.out.reg_type()) == group && other.out.reg_id() == src_id) {
+        if (!other.out.is_reg() || RegUtils::group_of(other.out.reg_type()) != group) {
+          break;
+        }
+
+        dst_id = other.out.reg_id();
+        if (dst_id == src_id) {
           wd._num_swaps++;
           _reg_swaps_mask = uint8_t(_reg_swaps_mask | Support::bit_mask<uint32_t>(group));
+          break;
         }
       }
     }
